@@ -426,5 +426,7 @@ def replay(ctx, rp):
   mj = mj_all(sysm, q, qd, act)
   name = rp['quantity']
   ok = q_close(sysm, real[name], mj[name], TOL_MJ) if name == 'q1' else close(real[name], mj[name], TOL_MJ)
-  return bool(ok), (f'{name}: brax {np.asarray(real[name]).reshape(-1)[:12]} mujoco '
-                    f'{np.asarray(mj[name]).reshape(-1)[:12]}')
+  a, b = np.asarray(real[name], dtype=np.float64).reshape(-1), np.asarray(mj[name], dtype=np.float64).reshape(-1)
+  k = int(np.argmax(np.abs(a - b))) if a.shape == b.shape and a.size else 0
+  return bool(ok), (f'{name}[{k}]: brax {a[k] if a.size else None} mujoco {b[k] if b.size else None} '
+                    f'(max |diff| over {a.size} entries)')
